@@ -261,6 +261,9 @@ def core_types():
     for i in range(6):
         d = [T("vec", [d]), T("option", [d]), T("box", [d]), T("tuple", [d, U8]), T("array", [d], 2), T("result", [d, STRING])][i]
     out.append(d)
+    # different identities whose definitions are built by identical code (only a PhantomData argument differs)
+    out += [T("tuple", [U8, T("phantom", [U16])]), T("tuple", [U8, T("phantom", [STRING])]), T("array", [T("phantom", [U8])], 2), T("array", [T("phantom", [U16])], 2),
+            T("vec", [T("phantom", [U16])]), T("option", [T("phantom", [STRING])]), T("result", [T("phantom", [U8]), T("phantom", [U16])]), T("result", [T("phantom", [U16]), T("phantom", [U8])])]
     # very deep nesting (registration recursion depth 40 and 70; Box is transparent and does not add a level)
     for depth in (40, 70, 130, 300):
         # the two deepest ones end in `char` so that no value-level machinery is instantiated for them
